@@ -239,7 +239,7 @@ func entryHasObjectSet(ops []document.HistoryOperation) bool {
 
 // entrySetsNonEmptyText reports whether a stacked entry contains an
 // Object.Set whose value is a Text that holds any node, live or tombstoned
-// (finding C14a: the wire form of a Text value carries no nodes at all, so
+// (finding F32: the wire form of a Text value carries no nodes at all, so
 // the peer restores an empty text; even when every node is a tombstone a
 // later restore-by-identity recreates them there in a different order).
 func entrySetsNonEmptyText(ops []document.HistoryOperation) bool {
@@ -427,13 +427,13 @@ func identTree(sb *strings.Builder, n *crdt.TreeNode) {
 	sb.WriteString(")")
 }
 
-// entryTriggersC14c reports whether a stacked entry would re-insert an array
+// entryTriggersF34 reports whether a stacked entry would re-insert an array
 // element (Add reverse of an array delete) anchored on a position that an
 // element was MOVED into and that element has since been removed (finding
-// C14c: the anchor is a position identity, which ReconcileCreatedAt does not
+// F34: the anchor is a position identity, which ReconcileCreatedAt does not
 // rewrite when the removed sibling is itself restored under a fresh identity,
 // so the element comes back at the wrong index).
-func entryTriggersC14c(d *document.Document, ops []document.HistoryOperation) bool {
+func entryTriggersF34(d *document.Document, ops []document.HistoryOperation) bool {
 	for _, h := range ops {
 		add, ok := h.Op.(*operations.Add)
 		if !ok || add.PrevCreatedAt() == nil {
@@ -467,7 +467,7 @@ type env struct {
 	// peer no longer collects garbage (its stale GC registration of the
 	// restored identity would delete the live key; listed under C15).
 	noPeerGC bool
-	// peerOff: C14a exclusion — once an undo/redo restored a non-empty Text
+	// peerOff: F32 exclusion — once an undo/redo restored a non-empty Text
 	// through Object.Set the peer is no longer fed or compared.
 	peerOff bool
 	hist    []string
